@@ -97,6 +97,24 @@ def peerConnected (n : Node) (p : Peer) : Node :=
   if n.queues.any (fun q => q.peer == p.key) then n
   else { n with queues := n.queues ++ [{ peer := p.key, xor := xorOf n.dag, clock := lcOf n.dag }] }
 
+/-- what can happen to a connection: the object flips before the state callback runs (`down`/`up`), or the callback runs
+    (`disconnect` → `PeerDisconnected` drops the gossip queue; `connect` → `PeerConnected` creates one unless it exists) -/
+inductive ConnMode where
+  | down | up | disconnect | connect
+  deriving DecidableEq, Repr, Inhabited
+
+def setConnected (n : Node) (key : Nat) (b : Bool) : Node :=
+  { n with peers := n.peers.map (fun p => if p.key == key then { p with connected := b } else p) }
+
+def connChange (n : Node) (key : Nat) : ConnMode → Node
+  | .down => setConnected n key false
+  | .up => setConnected n key true
+  | .disconnect => { setConnected n key false with queues := n.queues.filter (fun q => q.peer != key) }
+  | .connect =>
+    let n1 := setConnected n key true
+    if n1.queues.any (fun q => q.peer == key) then n1
+    else { n1 with queues := n1.queues ++ [{ peer := key, xor := xorOf n1.dag, clock := lcOf n1.dag }] }
+
 /-! ### conversations -/
 
 def ConvData.blockable (cfg : Cfg) : ConvData → Bool
